@@ -639,15 +639,18 @@ def cyc(seedtxt, n):
 
 
 def with_odd(s, odd, pos):
-    """Replace one character of s (keeping the utf-8 length when possible is not tried)."""
+    """Replace one character of s (keeping the utf-8 length when possible is not tried); control characters go to the
+    very end in half of the draws (anchored regular expressions treat a trailing line feed specially)."""
     if not s or odd is None:
         return s
     p = pos % len(s)
+    if odd in ('\n', '\r', '\t', '\x00', '\x7f') and pos % 2:
+        p = len(s) - 1
     return s[:p] + odd + s[p + 1:]
 
 
 seed_txt = st.text(alphabet=D, min_size=1, max_size=6)
-odd_st = st.one_of(st.none(), st.none(), st.sampled_from(['a', 'z', '-', ' ', '+', '~', 'é', 'Ж', '日', '😀', '.', ';']))
+odd_st = st.one_of(st.none(), st.none(), st.sampled_from(['a', 'z', '-', ' ', '+', '~', 'é', 'Ж', '日', '😀', '.', ';', '\n', '\r', '\t', '\x00', '\x7f']))
 mode_st = st.sampled_from(['d', 'd', 'd', 'lower', 'utf8'])
 
 VERSIONS = [None, None, '1', '1', '', '0', '2', '32767', '32768', '99999', 'B', '1A', '+1', ' 1', '00001', '1;1', '-1']
